@@ -15,7 +15,8 @@ RULE = ('random finite/segment MPS (L 2-7; spin-1/2, spin-1, fermion, spinful fe
         'infinite MPS are checked on windows through harness-built theta tensors. The harness contracts the raw stored '
         'tensors with the recorded form exponents itself. non-trivial = entangled state (some bond dimension >= 2); '
         'distinct = (builder, site kind, L, history) signature'
-        ' Also: from_lat_product_state on all lattice kinds, re-canonicalisation of infinite states from site-dependent forms, real infinite states made complex through set_B, charge-resolved entanglement spectrum against the dense state.')
+        ' Also: from_lat_product_state on all lattice kinds, re-canonicalisation of infinite states from site-dependent forms, real infinite states made complex through set_B, charge-resolved entanglement spectrum against the dense state.'
+        ' Round 5: entropies of segment MPS and at explicitly given bonds of infinite MPS (bond L and beyond); MPS(sites,Bs,SVs), copy() and extract_segment() stay unchanged when their sources are overwritten in place.')
 ASSUMPTIONS = ['the stored tensor of site i denotes S_i^nuL Gamma_i S_{i+1}^nuR with form (nuL, nuR) (module docstring of mps.py)']
 ANCHORS = {'tenpy/networks/mps.py': ['*']}
 REQUIRED_COUNTERS = {'builder.from_full': 10, 'builder.from_product_state': 10, 'builder.from_Bflat': 10, 'builder.from_singlets': 5,
